@@ -8,7 +8,7 @@ FUNCTIONS = ['flowdyn.modeldisc.fvm2dcart.{calc_grad,calc_bc_grad,interp_face,ca
 BOUNDS = ('grids (nx,ny) in {(3,2),(2,3)} (thorough + (3,3),(4,3),(3,4)), lx != ly symbolic; all admissible data symbolic; fluxes centered, hlle; '
           'reconstructions extrapol2d1 and extrapol2dk(kappa symbolic); (1) data constant along y (resp. x) with a uniform transverse velocity w '
           '(symbolic, incl. 0): rows (columns) of the 2D operator vs the 1D operator on the row, boundary pairs per, insub/outsub, insup/outsup with '
-          'walls or periodicity on the other two sides; (2) transposition (nx<->ny, lx<->ly, u<->v, boundary dictionary transposed); (3) reflection in x '
+          'walls or periodicity on the other two sides, and wall/outsub with w != 0; (2) transposition (nx<->ny, lx<->ly, u<->v, boundary dictionary transposed); (3) reflection in x '
           'and in y; boundary tags per, sym, insub, insup, outsub, outsup on any side; gamma = 2 (quick) + 7/5 (thorough)')
 OUTSIDE = 'larger grids (stencil locality); float round-off'
 ASSUMPTIONS = ['with a uniform transverse velocity w the 2D energy residual is the 1D one + w^2/2 * mass residual and the transverse momentum residual is '
@@ -32,6 +32,9 @@ def configs(tier):
                         for bc in ('per', 'sub', 'sup'):
                             for other in (('per', 'sym') if (not q or bc == 'per') else ('sym',)):
                                 out.append(dict(base, part='1d', axis=axis, bc=bc, other=other))
+                        # wall + subsonic outlet, periodic on the other two sides: the boundary functions that exist in 1D and 2D and
+                        # must leave a (non-zero, symbolic) transverse velocity untouched
+                        out.append(dict(base, part='1d', axis=axis, bc='wallout', other='per'))
                     for bcset in ('per', 'duct-sub', 'duct-sup', 'walls'):
                         out.append(dict(base, part='transpose', bcset=bcset))
                         for ax in ('x', 'y'):
@@ -87,6 +90,8 @@ def _vs1d(cfg, B):
     bc = cfg['bc']
     if bc == 'per':
         inl = outl = {'type': 'per'}
+    elif bc == 'wallout':
+        inl, outl = {'type': 'sym'}, {'type': 'outsub', 'p': B.pos('pout', 0.2, 1.0)}
     else:
         inl, outl = _bcs(B, bc, model2, None)
         if bc == 'sub':
@@ -98,7 +103,7 @@ def _vs1d(cfg, B):
         bclist = {'left': inl, 'right': outl, 'bottom': oth, 'top': oth}
     else:
         bclist = {'bottom': inl, 'top': outl, 'left': oth, 'right': oth}
-    if cfg['other'] == 'sym' or bc != 'per':
+    if cfg['other'] == 'sym' or bc not in ('per', 'wallout'):
         # walls / inlets need a flow aligned with the varying direction (the 2D inlets impose a normal velocity)
         w = B.const(0)
         V2 = B.array([un, [w] * n]) if axis == 'x' else B.array([[w] * n, un])
